@@ -194,9 +194,9 @@ def name_strategy():
     pool = ["Knuth", "Donald", "E.", "von", "der", "de", "la", "van", "Beethoven", "Jr", "IV", "{de la}", "{Foo Bar}", "d'Ormesson",
             "Jean-Paul", "{\\'E}mile", "{\\'e}cole", "\\'Emile", "\\'ecole", "{\\ae}sop", "{\\AE}sop", "1st", "2b", "{cc}", "{Cc}", "{}", "{\\relax von}Last",
             "ÉCOLE", "école", "ß", "Ünal", "ünal", "x{\\'E}", "{x}y", "{x}Y", "b\\", "B\\\\", "\\\\", "\\", "~", "-", "'t", "A", "b", "3", "{\\'{E}}x",
-            "{{\\'E}}x", "{a\\b}", "\\LaTeX", "\\aa", "\\AA", "Hef{}feron", "{}x", "x{}", "\\{", "\\}", "\\,", "{,}", "{ }", "a{b,c}d", "A{b c}d"]
+            "{{\\'E}}x", "{a\\b}", "凯", "凯歌", "ǅx", "ªb", "ſx", "Ⅻ", "x\xa0y", "É", "é", "\\LaTeX", "\\aa", "\\AA", "Hef{}feron", "{}x", "x{}", "\\{", "\\}", "\\,", "{,}", "{ }", "a{b,c}d", "A{b c}d"]
     word = st.one_of(st.sampled_from(pool), st.sampled_from(WORDS), st.text(alphabet="aAbB1.-'éÉ", min_size=1, max_size=4))
-    sep = st.sampled_from([" ", " ", " ", "~", ", ", ",", " , ", "  ", "\t", "\n", ", ~"])
+    sep = st.sampled_from([" ", " ", " ", "~", ", ", ",", " , ", "  ", "\t", "\n", ", ~", "\r\n", "\r"])
 
     @st.composite
     def name(draw):
